@@ -46,6 +46,8 @@ def generic_failures(i, ob):
         fails.append(("tla-type-error:" + label, "step %d: TLA+ type error in %s of %s: %s" % (i, label, proc, ob.get("err", "")[:200])))
     elif out not in OUT:
         breaks.append("step %d: archetype %s ended with %s (%s)" % (i, proc, out, ob.get("err", "")[:200]))
+    for st in ob.get("stale") or []:
+        breaks.append("step %d: stale local state (an aborted attempt was not rolled back?): %s" % (i, st))
     return fails, breaks
 
 
